@@ -1,32 +1,61 @@
-(* C06 — sort-merge joins.  Mechanised here: the exhausted-side behaviour of the group-wise merges (the place where rows
-   with a None key were lost before the "fix:" commits), groupby tiling, crossjoin cardinality.
-   NOT yet mechanised: Permutation (join_loop ... (groupby (sort L)) (groupby (sort R))) (nl_join ... L R); that statement
-   is judged on every run by the extracted oracle Relational.join_spec_holds on the implementation's output. *)
-From Verif Require Import PyVal Rows Sort Basics Joins Relational JoinFacts.
+(* C06 — sort-merge joins implement the relational join operators exactly.
+   join_loop / antijoin_loop / lookupjoin_loop are the group-wise merges of iterjoin / iterantijoin / iterlookupjoin
+   (model/Joins.v, as repaired); nl_join / nl_anti / nl_lookup are the nested-loop definitions (spec/Relational.v):
+   one output row per pair of rows with equal keys (None == None), unmatched rows padded for the outer variants.
+   L and R are the data rows after squaring up; sort_data is the model of sort() proved in C05.                     *)
+From Verif Require Import PyVal Rows ComparableGen Sort Basics Joins Relational JoinFacts JoinRel.
+From Coq Require Import Permutation.
 
+(* join / leftjoin / rightjoin / outerjoin  (lo, ro = left / right outer), for every buffersize of the two sorts *)
+Theorem C06_join_is_relational : forall n lkind rkind rvind missing lo ro bl br L R,
+  (forall b, bl = Some b -> (1 <= b)%nat) -> (forall b, br = Some b -> (1 <= b)%nat) ->
+  Permutation
+    (join_loop n lkind rkind rvind missing lo ro
+               (groupby (getkey lkind) (sort_data (row_leb false lkind) bl L))
+               (groupby (getkey rkind) (sort_data (row_leb false rkind) br R)))
+    (nl_join n lkind rkind rvind missing lo ro L R).
+Proof. exact join_is_relational. Qed.
+
+(* antijoin: exactly the left rows without a partner *)
+Theorem C06_antijoin_is_relational : forall lkind rkind L R,
+  Permutation (antijoin_loop (groupby (getkey lkind) (sort_data (row_leb false lkind) None L))
+                             (groupby (getkey rkind) (sort_data (row_leb false rkind) None R)))
+              (nl_anti lkind rkind L R).
+Proof. exact antijoin_is_relational. Qed.
+
+(* lookupjoin: every left row exactly once, with its first partner (in the right table's order) or padding *)
+Theorem C06_lookupjoin_is_relational : forall lkind rkind rvind missing L R,
+  Permutation (lookupjoin_loop rvind missing (groupby (getkey lkind) (sort_data (row_leb false lkind) None L))
+                               (groupby (getkey rkind) (sort_data (row_leb false rkind) None R)))
+              (nl_lookup lkind rkind rvind missing L R).
+Proof. exact lookupjoin_is_relational. Qed.
+
+(* on the key-sorted inputs the anti and lookup joins are exact, order included (hence ascending key order) *)
+Theorem C06_antijoin_exact_on_sorted : forall lkind rkind lgs rgs,
+  grp_ok (getkey lkind) lgs -> grp_ok (getkey rkind) rgs -> grp_sorted lgs -> grp_sorted rgs ->
+  antijoin_loop lgs rgs = nl_anti lkind rkind (rows_of lgs) (rows_of rgs).
+Proof. exact antijoin_loop_exact. Qed.
+
+(* exhausted sides (where rows with a None key were lost before the fix: commits) *)
 Theorem C06_outer_join_right_exhausted : forall n lkind rkind rvind missing lo ro lgs,
   join_loop n lkind rkind rvind missing lo ro lgs [] =
   if lo then flat_map (fun g => join_left_only rvind missing (snd g)) lgs else [].
 Proof. exact join_loop_right_empty. Qed.
-
 Theorem C06_outer_join_left_exhausted : forall n lkind rkind rvind missing lo ro rgs,
   join_loop n lkind rkind rvind missing lo ro [] rgs =
   if ro then flat_map (fun g => join_right_only n lkind rkind rvind missing (snd g)) rgs else [].
 Proof. exact join_loop_left_empty. Qed.
-
 Theorem C06_leftjoin_header_only_right : forall n lkind rkind rvind missing ro keyf rows,
   join_loop n lkind rkind rvind missing true ro (groupby keyf rows) [] = join_left_only rvind missing rows.
 Proof. exact leftjoin_header_only_right. Qed.
-
 Theorem C06_antijoin_header_only_right : forall keyf rows, antijoin_loop (groupby keyf rows) [] = rows.
 Proof. exact antijoin_header_only_right. Qed.
 
-Theorem C06_lookupjoin_header_only_right : forall rvind missing lgs,
-  lookupjoin_loop rvind missing lgs [] = flat_map (fun g => join_left_only rvind missing (snd g)) lgs.
-Proof. exact lookupjoin_loop_right_empty. Qed.
-
 Theorem C06_groupby_tiles_rows : forall keyf rows, concat (map snd (groupby keyf rows)) = rows.
 Proof. exact groupby_concat. Qed.
+Theorem C06_groupby_of_sorted_is_strictly_increasing : forall kf rows,
+  key_sorted kf rows -> grp_ok kf (groupby kf rows) /\ grp_sorted (groupby kf rows).
+Proof. exact groupby_ok. Qed.
 
 Theorem C06_crossjoin_cardinality : forall srcs,
   length (product srcs) = fold_right (fun s n => (length s * n)%nat) 1%nat srcs.
@@ -42,10 +71,14 @@ Example C06_ex_none_key_kept :
       [VNum KInt (Fin 2); VNum KInt (Fin 3); VNone]], None).
 Proof. vm_compute. reflexivity. Qed.
 
+Print Assumptions C06_join_is_relational.
+Print Assumptions C06_antijoin_is_relational.
+Print Assumptions C06_lookupjoin_is_relational.
+Print Assumptions C06_antijoin_exact_on_sorted.
 Print Assumptions C06_outer_join_right_exhausted.
 Print Assumptions C06_outer_join_left_exhausted.
 Print Assumptions C06_leftjoin_header_only_right.
 Print Assumptions C06_antijoin_header_only_right.
-Print Assumptions C06_lookupjoin_header_only_right.
 Print Assumptions C06_groupby_tiles_rows.
+Print Assumptions C06_groupby_of_sorted_is_strictly_increasing.
 Print Assumptions C06_crossjoin_cardinality.
